@@ -197,5 +197,56 @@ package batchresource
 //@   ensures #ratio: result1 == ((result0 && r.cpuNormalizationRatio != nil) ? deref(r.cpuNormalizationRatio) : 0 - 1)
 //@   modifies nothing
 
-// (*Rule).UpdateCFSQuotaEnabled / UpdateCPUNormalizationRatio are outside the engine's subset
-// ("address of a local stored into the heap"): no contract.
+// ratioDiffEpsilon as the compiled code sees it: the float64 nearest to 0.01 (the engine evaluates the untyped
+// constant exactly as 1/100 in specs but rounds it to float64 in the code, so the name cannot be used here).
+//@ spec func eps() float64 = 5764607523034235.0 / 576460752303423488.0
+
+// The two cached rule values. result == true exactly when the stored value changed.
+//@ func (*Rule).UpdateCFSQuotaEnabled [C14]
+//@   requires r != nil
+//@   ensures #set: r.enableCFSQuota != nil && deref(r.enableCFSQuota) == enabled
+//@   ensures #changed: result <==> (old(r.enableCFSQuota) == nil || old(deref(r.enableCFSQuota)) != enabled)
+//@   ensures #ratio: r.cpuNormalizationRatio == old(r.cpuNormalizationRatio) && (r.cpuNormalizationRatio != nil ==> deref(r.cpuNormalizationRatio) == old(deref(r.cpuNormalizationRatio)))
+//@   modifies r.enableCFSQuota, obj(r.enableCFSQuota)
+
+// A new ratio replaces the cached one unless it is within eps() of it.
+//@ func (*Rule).UpdateCPUNormalizationRatio [C14]
+//@   requires r != nil
+//@   ensures #changed: result <==> (old(r.cpuNormalizationRatio) == nil || abs(old(deref(r.cpuNormalizationRatio)) - ratio) >= eps())
+//@   ensures #value: r.cpuNormalizationRatio != nil && deref(r.cpuNormalizationRatio) == (result ? ratio : old(deref(r.cpuNormalizationRatio)))
+//@   ensures #enable: r.enableCFSQuota == old(r.enableCFSQuota) && (r.enableCFSQuota != nil ==> deref(r.enableCFSQuota) == old(deref(r.enableCFSQuota)))
+//@   modifies r.cpuNormalizationRatio, obj(r.cpuNormalizationRatio)
+
+// Node-metadata event. parsed / perr are the results of apiext.GetCPUNormalizationRatio(node) (inlined: -1, nil when
+// the annotation is absent; ParseFloat of the annotation otherwise, an error when malformed or <= 0).
+//@ func (*plugin).parseRuleForNodeMeta [C14]
+//@   option inline GetCPUNormalizationRatio
+//@   requires p != nil && p.rule != nil
+//@   let node = payload(nodeIf, *corev1.Node)
+//@   let valid = typeis(nodeIf, *corev1.Node) && node != nil
+//@   let absent = node.ObjectMeta.Annotations == nil || !has(node.ObjectMeta.Annotations, apiext.AnnotationCPUNormalizationRatio)
+//@   let ptr = p.rule.cpuNormalizationRatio
+//@   let stored = deref(p.rule.cpuNormalizationRatio)
+//@   ensures #invalid: !valid ==> !result0 && result1 != nil && ptr == old(ptr) && (ptr != nil ==> stored == old(stored))
+//@   ensures #absent: valid && absent ==> result1 == nil && ptr != nil && stored == ((old(ptr) != nil && abs(old(stored) + 1) < eps()) ? old(stored) : 0 - 1)
+//@   ensures #reset: valid && absent ==> ptr != nil && stored <= 1
+//@   ensures #parse_error: valid && lastresult("GetCPUNormalizationRatio", 1) != nil ==> !result0 && result1 != nil && ptr == old(ptr) && (ptr != nil ==> stored == old(stored))
+//@   ensures #stored: valid && lastresult("GetCPUNormalizationRatio", 1) == nil ==> result1 == nil && ptr != nil && stored == ((old(ptr) != nil && abs(old(stored) - lastresult("GetCPUNormalizationRatio", 0)) < eps()) ? old(stored) : lastresult("GetCPUNormalizationRatio", 0))
+//@   ensures #changed: valid && lastresult("GetCPUNormalizationRatio", 1) == nil ==> (result0 <==> (old(ptr) == nil || abs(old(stored) - lastresult("GetCPUNormalizationRatio", 0)) >= eps()))
+//@   ensures #nostale: valid && lastresult("GetCPUNormalizationRatio", 1) == nil && lastresult("GetCPUNormalizationRatio", 0) <= 1 ==> stored < 1 + eps()
+//@   ensures #enable: p.rule.enableCFSQuota == old(p.rule.enableCFSQuota) && (p.rule.enableCFSQuota != nil ==> deref(p.rule.enableCFSQuota) == old(deref(p.rule.enableCFSQuota)))
+//@   modifies p.rule.cpuNormalizationRatio, obj(p.rule.cpuNormalizationRatio)
+
+// Node-SLO event: CFS quota is enabled unless BE CPU suppression is on with the cfsQuota policy.
+//@ func getCPUSuppressPolicy [C14]
+//@   ensures #explicit: nodeSLOSpec != nil && nodeSLOSpec.ResourceUsedThresholdWithBE != nil && nodeSLOSpec.ResourceUsedThresholdWithBE.CPUSuppressPolicy != "" ==> result0 == deref(nodeSLOSpec.ResourceUsedThresholdWithBE.Enable) && result1 == nodeSLOSpec.ResourceUsedThresholdWithBE.CPUSuppressPolicy
+//@   modifies nothing
+
+//@ func (*plugin).parseRuleForNodeSLO [C14]
+//@   requires p != nil && p.rule != nil
+//@   requires typeis(mergedNodeSLOIf, *slov1alpha1.NodeSLOSpec)
+//@   ensures #set: result1 == nil && p.rule.enableCFSQuota != nil && deref(p.rule.enableCFSQuota) == !(lastresult("getCPUSuppressPolicy", 0) && lastresult("getCPUSuppressPolicy", 1) == slov1alpha1.CPUCfsQuotaPolicy)
+//@   ensures #changed: result0 <==> (old(p.rule.enableCFSQuota) == nil || old(deref(p.rule.enableCFSQuota)) == (lastresult("getCPUSuppressPolicy", 0) && lastresult("getCPUSuppressPolicy", 1) == slov1alpha1.CPUCfsQuotaPolicy))
+//@   ensures #explicit: payload(mergedNodeSLOIf, *slov1alpha1.NodeSLOSpec) != nil && payload(mergedNodeSLOIf, *slov1alpha1.NodeSLOSpec).ResourceUsedThresholdWithBE != nil && payload(mergedNodeSLOIf, *slov1alpha1.NodeSLOSpec).ResourceUsedThresholdWithBE.CPUSuppressPolicy != "" ==> deref(p.rule.enableCFSQuota) == !(old(deref(payload(mergedNodeSLOIf, *slov1alpha1.NodeSLOSpec).ResourceUsedThresholdWithBE.Enable)) && payload(mergedNodeSLOIf, *slov1alpha1.NodeSLOSpec).ResourceUsedThresholdWithBE.CPUSuppressPolicy == slov1alpha1.CPUCfsQuotaPolicy)
+//@   ensures #ratio: p.rule.cpuNormalizationRatio == old(p.rule.cpuNormalizationRatio) && (p.rule.cpuNormalizationRatio != nil ==> deref(p.rule.cpuNormalizationRatio) == old(deref(p.rule.cpuNormalizationRatio)))
+//@   modifies p.rule.enableCFSQuota, obj(p.rule.enableCFSQuota)
